@@ -113,3 +113,14 @@ Theorem C01_float_twin_total :
          pava_blocks_f (combine y w) = Some stk /\ pava_f y w = (fexpand stk, frvec stk).
 Proof. exact pava_f_fuel. Qed.
 Print Assumptions C01_float_twin_total.
+
+(* monotone AS FLOATS: for every binary64 input whose result contains no NaN (proofs/PavaFloatMonotone.v; rests on the
+   standard library's FloatAxioms.eqb_spec / ltb_spec / leb_spec, listed by Print Assumptions) *)
+From MD Require Import proofs.PavaFloatMonotone.
+Theorem C01_float_twin_monotone :
+  forall (y : list float) (w : option (list float)) (inc : bool) (x : list float) (r : list nat),
+    isotonic_mean_f y w inc = FOk (x, r) -> no_nan x ->
+    forall (i : nat) (d : float), (S i < length x)%nat ->
+      if inc then (nth i x d <=? nth (S i) x d)%float = true else (nth (S i) x d <=? nth i x d)%float = true.
+Proof. exact isotonic_mean_f_monotone. Qed.
+Print Assumptions C01_float_twin_monotone.
